@@ -479,6 +479,7 @@ theorem stepWN_good (env : Env) (ht : Spec.StderrTame env) (n : Nat) (w : World)
         exact ⟨fun p hp => h.1 p (List.mem_filter.1 hp).1, h.2⟩
   | complete => exact stepW_good env ht n w .complete hg
   | remove hid k => exact stepW_good env ht n w (.remove hid k) hg
+  | removeAll k => exact stepW_good env ht n w (.removeAll k) hg
 
 /-- a logging call reaching a busy handler (marker set: we are inside its sink): the registry is not
     touched, the call is answered with RuntimeError – reported or raised as `catch` says -/
